@@ -744,9 +744,15 @@ class Macro(Element):
                 parname = item.nodeName
                 break
 
+        # No character substitutions (ligatures, quotes) in the content of
+        # a group or cell that is read in math mode
+        charsubs = self.ownerDocument.charsubs
+        if self.ownerDocument.context.isMathMode:
+            charsubs = None
+
         # No paragraphs, and we aren't forcing paragraphs...
         if parname is None and not force:
-            self.normalize(self.ownerDocument.charsubs)
+            self.normalize(charsubs)
             return
 
         if parname is None:
@@ -778,7 +784,7 @@ class Macro(Element):
         # Insert nodes into self
         for i, item in enumerate(newnodes):
             if item.level == Node.PAR_LEVEL:
-                item.normalize(self.ownerDocument.charsubs)
+                item.normalize(charsubs)
             self.insert(i, item)
 
         # Filter out any empty paragraphs
